@@ -15,5 +15,8 @@ ONone == {"none"}
 OAll == OptKinds
 OCookie == {"plain", "cookie"}
 KOptBatch == {"hit", "miss"}
+KTrunc == {"hit", "miss", "malformed", "trunc"}           \* oversize datagrams between served ones
+KTruncMixed == {"hit", "malformed", "trunc"}
+KHdr == {"hit", "failhit", "malformed"}                   \* a reply composed in place after full replies on the slab
 SymClients == Permutations(Clients)
 =============================================================================
